@@ -229,8 +229,12 @@ def walk(o):
     return o.__class__.__name__
 
 
+SKIP_PKG = set()        # (module stem, name) of module-level variables that are only updated and logged (staticguard)
+
+
 def pkg_text(d):
-    return ";".join("%s=%s" % (".".join(k[1:]), walk(v)) for k, v in sorted(d.items()))
+    return ";".join("%s=%s" % (".".join(k[1:]), walk(v)) for k, v in sorted(d.items())
+                    if not (k[0] == "m" and ((k[1].rsplit(".", 1)[-1] if "." in k[1] else "__init__"), k[2]) in SKIP_PKG))
 
 
 def plugin_key_text(p):
